@@ -67,6 +67,8 @@ mod sys {
     pub const MAP_PRIVATE_ANON: i32 = 0x02 | 0x20;
 }
 
+pub static LIVE_REGIONS: AtomicU64 = AtomicU64::new(0);
+
 struct Region {
     /// start of the whole mapping (the leading guard page)
     base: *mut u8,
@@ -82,13 +84,14 @@ impl Region {
         unsafe {
             let base = sys::mmap(ptr::null_mut(), total, sys::PROT_NONE, sys::MAP_PRIVATE_ANON, -1, 0);
             if base as isize == -1 || base.is_null() {
-                eprintln!("HARNESS-ERROR mmap failed");
+                eprintln!("HARNESS-ERROR mmap failed for {} bytes (run {})", total, CURRENT_RUN.load(Ordering::Relaxed));
                 std::process::exit(2);
             }
             if sys::mprotect(base.add(PAGE), data, sys::PROT_RW) != 0 {
-                eprintln!("HARNESS-ERROR mprotect failed");
+                eprintln!("HARNESS-ERROR mprotect failed for {} bytes (run {}, {} live regions)", data, CURRENT_RUN.load(Ordering::Relaxed), LIVE_REGIONS.load(Ordering::Relaxed));
                 std::process::exit(2);
             }
+            LIVE_REGIONS.fetch_add(1, Ordering::Relaxed);
             Region { base, data }
         }
     }
@@ -109,6 +112,7 @@ impl Drop for Region {
         unsafe {
             sys::munmap(self.base, self.data + 2 * PAGE);
         }
+        LIVE_REGIONS.fetch_sub(1, Ordering::Relaxed);
     }
 }
 
